@@ -82,14 +82,20 @@ def rulesHit (sem : Sem A P) (pick : Bool × Bool → Bool) (r : Rules P) (p : P
   || (!r.tables.isEmpty && pick (sem.tables p.ast r.tables))
   || (!r.patterns.isEmpty && r.patterns.any (sem.pat p.ast))
 
-/-- `sqlparser.String(nil)`: what `QueryIgnoreHandler.CheckQuery(rawQuery, nil)` computes as
-`normalizedQ` – `HandleQuery` always passes `nil` as the parsed statement. -/
+/-- `sqlparser.String(nil)`: what `QueryIgnoreHandler.CheckQuery` computes as `normalizedQ` for a
+statement that did not parse (`parsedQuery = nil`). -/
 def nilString : String := "<nil>"
+
+/-- `sqlparser.String(parsedQuery)` as computed by `QueryIgnoreHandler.CheckQuery(rawQuery, parsedQuery)`. -/
+def Stmt.normOrNil (s : Stmt A) : String :=
+  match s.parsed with
+  | some p => p.norm
+  | none => nilString
 
 /-- One handler, as dispatched inside the loop of `HandleQuery`. -/
 def Handler.check (sem : Sem A P) (s : Stmt A) : Handler P → Step
   | .capture => .next
-  | .ignore qs => if qs.contains nilString || qs.contains s.raw then .allow else .next
+  | .ignore qs => if qs.contains s.normOrNil || qs.contains s.raw then .allow else .next
   | .allowAll => .allow
   | .denyAll => .deny
   | .allow r =>
@@ -164,7 +170,8 @@ theorem check_raw_irrelevant (sem : Sem A P) (s₁ s₂ : Stmt A) (hp : s₁.par
   cases h with
   | ignore qs =>
     have := hi qs rfl
-    simp only [Handler.check, this]
+    have hn : s₁.normOrNil = s₂.normOrNil := by simp [Stmt.normOrNil, hp]
+    simp only [Handler.check, this, hn]
   | allow r => simp [Handler.check, hp]
   | deny r => simp [Handler.check, hp]
   | allowAll => rfl
